@@ -283,6 +283,9 @@ def r09_6(run):
     fl = run.idx.find_method(ca, 'attach_stream_failure')
     if not (add and att and fl):
         raise AnchorVanished('_CircuitAttacher methods')
+    if not any(isinstance(x, (ast.Yield, ast.Await)) for x in walk_unit(att)) and att.children:
+        raise Undecided('_CircuitAttacher.attach_stream is written with explicit callbacks (nested %s): its result flow is only followed in coroutine form'
+                        % ', '.join(c.name for c in att.children)[:60])
     # writer key
     defs = local_defs(add)
     wkeys = []
